@@ -54,6 +54,14 @@ Entries == [k \in 1..Len(Selected) |-> [t |-> Cat[Selected[k]], n |-> Cnt[Select
 \* ... and for the merge of two independently built segments with this dictionary (no deletions)
 Entries2 == [k \in 1..Len(Selected) |-> [t |-> Cat[Selected[k]], n |-> 2 * Cnt[Selected[k]]]]
 
+\* ... and for the merge of the segment alone with the documents dr deleted (built under chunk mode 2, so that the
+\* three documents span two chunks and document 1 is the last of the first chunk): a term whose documents are
+\* all deleted disappears, one left with a single frequency-1 hit becomes single-hit
+EntriesDrop(dr) ==
+  LET left(i) == Cardinality((0..(Cnt[i] - 1)) \ dr)
+      sel == SelectSeq(Selected, LAMBDA i : left(i) > 0)
+  IN  [k \in 1..Len(sel) |-> [t |-> Cat[sel[k]], n |-> left(sel[k])]]
+
 \* operational counts on a merged segment: the scratch list's single-hit bits persist unless cleared
 ImplCounts ==
   LET step(acc, i) ==
@@ -85,7 +93,7 @@ EmitQuery ==
      PrintT(<<"WALK", ToJson([ts |-> SortInts(TS), acc |-> SortInts(A),
                                lo |-> IF lo = NoBound THEN [nil |-> TRUE, k |-> <<>>] ELSE [nil |-> FALSE, k |-> lo],
                                hi |-> IF hi = NoBound THEN [nil |-> TRUE, k |-> <<>>] ELSE [nil |-> FALSE, k |-> hi],
-                               ents |-> Entries, ents2 |-> Entries2])>>)
+                               ents |-> Entries, ents2 |-> Entries2, entsd0 |-> EntriesDrop({0}), entsd1 |-> EntriesDrop({1})])>>)
 
 EnumExact == phase = "query" => ImplCounts = [k \in 1..Len(Entries) |-> Entries[k].n]
 
